@@ -112,7 +112,7 @@ Section WithBuiltins.
     | VElement n => Some n | VPI t _ => Some t | VAttribute n _ => Some n | _ => None
     end.
 
-  (* unresolved_namespaces: a fold over the traverse edges with a FullnameSerializer that starts empty *)
+  (* unresolved_namespaces: a fold over the traverse edges with a FullnameSerializer that starts from the base prefixes *)
   Fixpoint unresolved_edges (es : list edge) (s : fstack) (acc : list nsid) : list nsid :=
     match es with
     | [] => acc
@@ -120,12 +120,13 @@ Section WithBuiltins.
         match z_val z with
         | VElement name =>
             let s1 := fs_push s (declarations z) in
-            let acc1 := if is_namespace_known s1 (ns_of_name name) then acc else acc ++ [ns_of_name name] in
+            (* a name in no namespace needs no prefix *)
+            let acc1 := if N.eqb (ns_of_name name) no_ns || is_namespace_known s1 (ns_of_name name) then acc else acc ++ [ns_of_name name] in
             (* an attribute name in a namespace needs a non-empty prefix: the default namespace does not resolve it *)
             let acc2 := fold_left (fun a n =>
                                      let ns := ns_of_name n in
                                      let prefixed := match attribute_prefix empty_prefix no_ns s1 ns with PMissing => false | _ => true end in
-                                     if is_namespace_known s1 ns && (N.eqb ns no_ns || prefixed) then a else a ++ [ns])
+                                     if N.eqb ns no_ns || (is_namespace_known s1 ns && prefixed) then a else a ++ [ns])
                                   (attr_names z) acc1 in
             unresolved_edges es' s1 acc2
         | _ => unresolved_edges es' s acc
@@ -137,12 +138,14 @@ Section WithBuiltins.
         end
     end.
 
-  Definition unresolved_namespaces (z : zipper) : list nsid := unresolved_edges (traverse z) (fs_new []) [].
+  (* the walk starts from base_prefixes(): the xml prefix is always bound *)
+  Definition unresolved_namespaces (z : zipper) : list nsid := unresolved_edges (traverse z) (fs_new base_prefixes) [].
 
   (* inherited_prefixes: the in-scope bindings of the parent whose namespace is unresolved in the subtree
      (a HashMap in the implementation: compared as a set) *)
   Definition inherited_prefixes (z : zipper) : decls :=
     let inscope := match parent z with Some p => namespaces_in_scope p | None => [] end in
     let unres := unresolved_namespaces z in
-    filter (fun x => existsb (N.eqb (snd x)) unres) inscope.
+    (* ... and that the node does not declare itself *)
+    filter (fun x => existsb (N.eqb (snd x)) unres && negb (has_prefix (fst x) (declarations z))) inscope.
 End WithBuiltins.
